@@ -261,7 +261,13 @@ def stop_derive(sc: dict, t: float, rng: random.Random):
     b = rng.randrange(nb)
     timeout = rng.choice([None, None, 0, 0.05, 0.3])
     s1 = sc
-    s1['actors'] = s1['actors'] + [[['sleep', t], ['stop', b, timeout]]]
+    clear = rng.random() < 0.3  # stop(clear=True): also drops the bus's history and handlers
+    s1['actors'] = s1['actors'] + [[['sleep', t], ['stop', b, timeout, clear]]]
+    x = rng.random()
+    if x < 0.15:  # a second, concurrent or slightly later stop() of the same bus
+        s1['actors'] = s1['actors'] + [[['sleep', t + rng.choice([0.0, 0.0, 0.02, 0.2])], ['stop', b, rng.choice([None, 0, 0.05]), rng.random() < 0.3]]]
+    elif x < 0.3 and nb > 1:  # another bus stopped as well
+        s1['actors'] = s1['actors'] + [[['sleep', t + rng.choice([0.0, 0.02, 0.2])], ['stop', (b + 1) % nb, rng.choice([None, 0, 0.05]), rng.random() < 0.3]]]
     s1['no_idle_probe'] = True
     yield s1
 
@@ -290,6 +296,18 @@ def timeout_base(rng: random.Random, i: int) -> dict:
     # make sure the root has at least one awaiting handler with a child that itself awaits a grandchild
     sc['handlers'].insert(0, {'bus': 0, 'pat': 0, 'kind': 'async', 'prog': [['sleep', rng.choice([0.05, 0.1])], ['disp', 1, rng.randrange(nb), 'fire', None, {}], ['disp', 1, rng.randrange(nb), 'await', rng.choice([None, 0, 0.05]), {}], ['sleep', 0.1]], 'cleanup': rng.choice([0, 0, 0.15, 0.4])})
     sc['handlers'].append({'bus': 0, 'pat': 0, 'kind': 'async', 'prog': [['sleep', 0.05]]})
+    if nb == 2 and rng.random() < 0.3:
+        # the root event is also handled on a second bus (forwarded there), often a parallel one: every bus gives each of its
+        # handlers the event's full timeout, counted from when THAT handler is started
+        sc['fwd'] = [[0, 1, rng.choice([0, '*'])]]
+        if rng.random() < 0.6:
+            sc['buses'][1]['par'] = True
+        for _ in range(rng.randint(1, 3)):
+            sc['handlers'].append({'bus': 1, 'pat': 0, 'kind': 'async', 'prog': [['sleep', rng.choice([0.02, 0.1, 0.3, 0.6])]]})
+    if rng.random() < 0.2:
+        # a blocking sync handler (the loop cannot run anything while it blocks) beside async siblings
+        b = rng.randrange(nb)
+        sc['handlers'].insert(rng.randrange(len(sc['handlers']) + 1), {'bus': b, 'pat': rng.choice([0, 1]), 'kind': 'sync', 'prog': [['busy', rng.choice([0.05, 0.2])]]})
     return sc
 
 
@@ -334,6 +352,23 @@ def late_on_scenario(rng: random.Random, i: int) -> dict:
         for _ in range(rng.randint(1, 3)):
             ops.append(['disp', t, hs[k]['bus'], rng.choice(['fire', 'await']), rng.choice([0, 0.01, 0.05]), {}])
     sc['actors'].append(ops)
+    return sc
+
+
+def gather_scenario(rng: random.Random, i: int) -> dict:
+    """Handlers that await several children at once: `await asyncio.gather(bus_a.dispatch(X()), bus_b.dispatch(Y()))` -
+    same bus and other buses, with a backlog, nested one level down as well."""
+    c = cfg(nb=(1, 3), levels=3, p_lazy=0.1, p_raise=0.05, p_busy=0.0, prog_len=(1, 3), handlers_per=(1, 1, 2), n_actors=(1, 2), actor_ops=(2, 5), p_wild=0.0, p_par=0.2, p_fwd=0.0)
+    sc = random_scenario(rng, c)
+    nb = len(sc['buses'])
+    # level-0 handler gathers two or three level-1 children; one level-1 handler gathers level-2 children
+    sc['handlers'].insert(0, {'bus': 0, 'pat': 0, 'kind': 'async', 'prog': [['sleep', rng.choice([0, 0.05])], ['gather', [[1, rng.randrange(nb)] for _ in range(rng.randint(2, 3))]], ['sleep', rng.choice([0, 0.05])]]})
+    if rng.random() < 0.6:
+        sc['handlers'].append({'bus': rng.randrange(nb), 'pat': 1, 'kind': 'async', 'prog': [['gather', [[2, rng.randrange(nb)] for _ in range(2)]]]})
+    for b in range(nb):
+        sc['handlers'].append({'bus': b, 'pat': 2, 'kind': 'async', 'prog': [['sleep', rng.choice(SHORT)]]})
+        sc['handlers'].append({'bus': b, 'pat': 1, 'kind': 'async', 'prog': [['sleep', rng.choice(SHORT)]]})
+    sc['actors'].insert(0, [['disp', 0, 0, rng.choice(['await', 'fire']), 0, {}]])
     return sc
 
 
@@ -545,13 +580,19 @@ def idle_base(rng: random.Random, i: int) -> dict:
     actors = [[['disp', 0, 0, rng.choice(['await', 'fire']), rng.choice(SHORT), {}], ['disp', 0, 0, 'fire', 0, {}], ['await', 0]]]
     if rng.random() < 0.6:
         actors.append([['sleep', rng.choice(SHORT)], ['disp', rng.choice([1, 2, 3]), rng.randrange(nb), 'fire', rng.choice(SHORT), {}], ['disp', 3, tb, 'fire', 0, {}]])
-    return {'seed': rng.randrange(1 << 30), 'buses': buses, 'fwd': [], 'handlers': hs, 'actors': actors}
+    fwd = [[tb, (tb + 1) % nb, rng.choice(['*', 3])]] if rng.random() < 0.3 else []  # the bus's last event may finish on another bus
+    return {'seed': rng.randrange(1 << 30), 'buses': buses, 'fwd': fwd, 'handlers': hs, 'actors': actors}
 
 
 def idle_derive(sc: dict, t: float, rng: random.Random):
     nb = len(sc['buses'])
     b = rng.choice([1, 1, rng.randrange(nb)])
-    sc['actors'] = sc['actors'] + [[['sleep', t], ['idle', b, rng.choice([None, None, 0.5, 2.0])]]]
+    two = rng.random() < 0.5
+    sc['actors'] = sc['actors'] + [[['sleep', t], ['idle', b, rng.choice([0.03, 0.15, 0.03, 0.15, 0.5, None] if two else [None, None, 0.5, 2.0])]]]
+    if two:
+        # a second caller on the same bus that is already waiting (or arrives a little later) while the first one comes and goes:
+        # one caller leaving - by timeout or normally - must not strand the other
+        sc['actors'] = sc['actors'] + [[['sleep', rng.choice([0.0, 0.0, max(0.0, t - 0.05), t + 0.01])], ['idle', b, None]]]
     yield sc
 
 
